@@ -74,6 +74,8 @@ def run_translator(tables):
             ext[m.group(1)] = {"rows": int(m.group(2)), "sha": m.group(3), "state": m.group(4)}
         elif line.startswith("EXTRACTION-FAILED"):
             broken.append("extraction: " + line[len("EXTRACTION-FAILED "):])
+        elif line.startswith("NOTE "):
+            print(line.strip())                      # informational (e.g. a retired ledger entry): shown, not an obligation
         elif line.strip():
             broken.append("translator: " + line.strip())
     if rc != 0 and not broken:
